@@ -13,7 +13,7 @@ Inductive cmpop := CLt | CLe | CGt | CGe | CEq | CNe.
 Record hint := mkhint { h_name : bytes; h_opt : bool }.
 
 Inductive pattern :=
-| PWild                               (* _ *)
+| PWild (h : option hint)            (* _  /  _: Type *)
 | PNull | PBool (b : bool) | PInt (z : Z) | PStr (s : bytes)
 | PId (x : id) (h : option hint)      (* x  /  x: Type *)
 | PTuple (ps : list pattern)          (* (a, b) *)
